@@ -357,8 +357,8 @@ Definition triple_ok (c : rcfg) (ns : nsdict) (t : triple) : bool :=
             else true
   end.
 
-Definition c05_input_ok (c : rcfg) (g : graph) : bool :=
-  valid_input c g &&
+(** everything but the conditions under which the run is total *)
+Definition c05_core_ok (c : rcfg) (g : graph) : bool :=
   str_eqb (r_shapes_ns c) c_SHAPES_DEFAULT_NAMESPACE &&
   match full_ns c with
   | None => false
@@ -368,6 +368,23 @@ Definition c05_input_ok (c : rcfg) (g : graph) : bool :=
     nodupb (map (shape_name (r_shapes_ns c)) (input_classes c g))
   end.
 
+Definition c05_input_ok (c : rcfg) (g : graph) : bool := valid_input c g && c05_core_ok c g.
+
+Lemma c05_core_ok_parts c g : c05_core_ok c g = true ->
+  r_shapes_ns c = c_SHAPES_DEFAULT_NAMESPACE /\
+  exists ns, full_ns c = Some ns /\ ns_ok ns = true /\
+    (forall t, In t g -> triple_ok c ns t = true) /\
+    (forall t, In t (match r_targets c with Some l => l | None => [] end) -> class_ok c ns t = true) /\
+    NoDup (map (shape_name (r_shapes_ns c)) (input_classes c g)).
+Proof.
+  unfold c05_core_ok. intros H. apply andb_true_iff in H. destruct H as [H2 H3]. apply str_eqb_eq in H2.
+  split; [exact H2|]. destruct (full_ns c) as [ns|]; [|discriminate].
+  exists ns. split; [reflexivity|].
+  apply andb_true_iff in H3. destruct H3 as [H3 H7]. apply andb_true_iff in H3. destruct H3 as [H3 H6].
+  apply andb_true_iff in H3. destruct H3 as [H4 H5]. rewrite forallb_forall in H5, H6.
+  split; [exact H4|]. split; [exact H5|]. split; [exact H6|]. apply nodupb_NoDup. exact H7.
+Qed.
+
 Lemma c05_input_ok_parts c g : c05_input_ok c g = true ->
   valid_input c g = true /\ r_shapes_ns c = c_SHAPES_DEFAULT_NAMESPACE /\
   exists ns, full_ns c = Some ns /\ ns_ok ns = true /\
@@ -375,13 +392,8 @@ Lemma c05_input_ok_parts c g : c05_input_ok c g = true ->
     (forall t, In t (match r_targets c with Some l => l | None => [] end) -> class_ok c ns t = true) /\
     NoDup (map (shape_name (r_shapes_ns c)) (input_classes c g)).
 Proof.
-  unfold c05_input_ok. intros H. apply andb_true_iff in H. destruct H as [H H3].
-  apply andb_true_iff in H. destruct H as [H1 H2]. apply str_eqb_eq in H2.
-  split; [exact H1|]. split; [exact H2|]. destruct (full_ns c) as [ns|]; [|discriminate].
-  exists ns. split; [reflexivity|].
-  apply andb_true_iff in H3. destruct H3 as [H3 H7]. apply andb_true_iff in H3. destruct H3 as [H3 H6].
-  apply andb_true_iff in H3. destruct H3 as [H4 H5]. rewrite forallb_forall in H5, H6.
-  split; [exact H4|]. split; [exact H5|]. split; [exact H6|]. apply nodupb_NoDup. exact H7.
+  unfold c05_input_ok. intros H. apply andb_true_iff in H. destruct H as [H1 H2].
+  split; [exact H1|]. exact (c05_core_ok_parts c g H2).
 Qed.
 
 (** every class key of the profile is a class IRI of the input *)
@@ -765,16 +777,14 @@ Proof.
 Qed.
 
 (** ** A2 + A1 + A3 at run level, and the headline *)
-Theorem run_C05_dom fa c thr g ns shapes :
-  c05_input_ok c g = true -> run_shapes fa c thr g = inl (ns, shapes) ->
+Theorem run_C05_dom_core fa c thr g ns shapes :
+  forallb (sentinel_free (r_tau c)) g = true -> c05_core_ok c g = true ->
+  run_shapes fa c thr g = inl (ns, shapes) ->
   C05_dom (z_of c ns) shapes = true /\ WellFormedProofs.refs_closed shapes /\ NoDup (map sh_name shapes).
 Proof.
-  intros Hok H. destruct (c05_input_ok_parts c g Hok) as (Hval & Hsns & ns0 & Hfull & Hns & Hg & Htg & Hnd).
+  intros Hfree Hok H. destruct (c05_core_ok_parts c g Hok) as (Hsns & ns0 & Hfull & Hns & Hg & Htg & Hnd).
   pose proof H as H0. apply run_shapes_decompose in H0. destruct H0 as (I & P & C & ID & Hfull' & HT & HP & HS).
   assert (ns0 = ns) by congruence. subst ns0.
-  assert (Hfree : forallb (sentinel_free (r_tau c)) g = true).
-  { unfold valid_input in Hval. apply andb_true_iff in Hval. destruct Hval as [Hval _].
-    apply andb_true_iff in Hval. destruct Hval as [Hval _]. apply andb_true_iff in Hval. apply Hval. }
   split; [|split].
   - unfold C05_dom. cbn [z_ns z_of]. rewrite Hns. cbn [andb]. apply forallb_forall. intros sh Hsh.
     unfold shape_ok. cbn [z_ns z_of]. apply andb_true_iff. split.
@@ -794,6 +804,20 @@ Proof.
   - exact (run_labels_NoDup fa c thr g ns shapes Hnd H).
 Qed.
 
+Lemma valid_input_sentinel_free c g : valid_input c g = true -> forallb (sentinel_free (r_tau c)) g = true.
+Proof.
+  unfold valid_input. intros Hval. apply andb_true_iff in Hval. destruct Hval as [Hval _].
+  apply andb_true_iff in Hval. destruct Hval as [Hval _]. apply andb_true_iff in Hval. apply Hval.
+Qed.
+
+Theorem run_C05_dom fa c thr g ns shapes :
+  c05_input_ok c g = true -> run_shapes fa c thr g = inl (ns, shapes) ->
+  C05_dom (z_of c ns) shapes = true /\ WellFormedProofs.refs_closed shapes /\ NoDup (map sh_name shapes).
+Proof.
+  unfold c05_input_ok. intros Hok H. apply andb_true_iff in Hok. destruct Hok as [Hval Hcore].
+  exact (run_C05_dom_core fa c thr g ns shapes (valid_input_sentinel_free c g Hval) Hcore H).
+Qed.
+
 Theorem run_wellformed fa c thr g :
   c05_input_ok c g = true ->
   exists text, run_shexc fa c thr g = inl text /\ recognise text = true /\ wellformed_closed text = true.
@@ -803,6 +827,44 @@ Proof.
   destruct (run_C05_dom fa c thr g ns shapes Hok Hr) as (Hd & Hrc & Hnd).
   destruct (run_wellformed_closed fa c thr g ns shapes Hr Hd Hrc Hnd) as [text [Ht Hw]].
   destruct (run_recognised fa c thr g ns shapes Hr Hd) as [text' [Ht' Hrec]].
+  assert (text' = text) by congruence. subst text'. exists text. auto.
+Qed.
+
+(** binary64, thresholds <= 1, fewer than 2^53 triples: ANY setting of the
+    options (disjunctions enabled together with remove_empty_shapes too: no
+    shape is empty, the shape-level cleaning that could fail is the identity) *)
+Definition c05_input_ok_le1 (c : rcfg) (g : graph) : bool :=
+  typing_okb (r_tau c) g && forallb (sentinel_free (r_tau c)) g && c05_core_ok c g.
+
+Lemma core_class_iris_ok c g : c05_core_ok c g = true -> class_iris_ok c g = true.
+Proof.
+  intros H. destruct (c05_core_ok_parts c g H) as (_ & ns & _ & _ & Hg & Htg & _).
+  assert (Hc : forall cls, class_ok c ns cls = true -> no_at cls && no_sentinel cls = true).
+  { intros cls Hc. destruct (class_ok_parts c ns cls Hc) as (Hp & Ha & _). rewrite Ha. cbn [andb].
+    destruct (plain_ok_parts ns cls Hp) as (_ & _ & Hs & _). unfold no_sentinel. rewrite Hs. reflexivity. }
+  unfold class_iris_ok. apply andb_true_iff. split; apply forallb_forall.
+  - intros t Ht. specialize (Hg t Ht). unfold triple_ok in Hg. unfold class_key_ok.
+    destruct (str_eqb (tp t) (r_tau c)); [|reflexivity]. cbn [negb orb].
+    destruct (to t) as [o|? ?]; [|reflexivity]. apply Hc.
+    apply andb_true_iff in Hg. destruct Hg as [_ Hg]. apply andb_true_iff in Hg. apply Hg.
+  - intros t Ht. apply Hc, Htg, Ht.
+Qed.
+
+Theorem run_wellformed_le1 c thr g :
+  c05_input_ok_le1 c g = true ->
+  wf_frac thr -> fle BAlg thr (fone BAlg) = true -> N.of_nat (List.length g) < 2 ^ 53 ->
+  exists text, run_shexc BAlg c thr g = inl text /\ recognise text = true /\ wellformed_closed text = true.
+Proof.
+  unfold c05_input_ok_le1. intros Hok Hw Hle Hg. apply andb_true_iff in Hok. destruct Hok as [Hok Hcore].
+  apply andb_true_iff in Hok. destruct Hok as [Hty Hfree].
+  assert (Hpf : prefix_free c = true).
+  { destruct (c05_core_ok_parts c g Hcore) as (_ & ns & Hfull & _). unfold prefix_free. unfold full_ns in Hfull.
+    destruct (shapes_prefix (r_ns c)); [reflexivity | discriminate]. }
+  destruct (run_total_valid c thr g Hw Hle Hg) as (ns & shapes & Hr).
+  { rewrite Hty, Hfree, Hpf, (core_class_iris_ok c g Hcore). reflexivity. }
+  destruct (run_C05_dom_core BAlg c thr g ns shapes Hfree Hcore Hr) as (Hd & Hrc & Hnd).
+  destruct (run_wellformed_closed BAlg c thr g ns shapes Hr Hd Hrc Hnd) as [text [Ht Hw']].
+  destruct (run_recognised BAlg c thr g ns shapes Hr Hd) as [text' [Ht' Hrec]].
   assert (text' = text) by congruence. subst text'. exists text. auto.
 Qed.
 
